@@ -544,8 +544,12 @@ static int Slice_Cmp(var self, var obj) {
 static var Slice_Iter_Init(var self) {
   struct Slice* s = self;
   struct Range* r = s->range;
+  struct Int* k = r->value;
   
   if (Range_Len(r) is 0) { return Terminal; }
+  
+  /* The Range cursor counts the position within the slice */
+  k->val = 0;
   
   if (r->step > 0) {
     var curr = iter_init(s->iter);
@@ -569,6 +573,10 @@ static var Slice_Iter_Init(var self) {
 static var Slice_Iter_Next(var self, var curr) {
   struct Slice* s = self;
   struct Range* r = s->range;
+  struct Int* k = r->value;
+  
+  k->val++;
+  if (k->val >= (int64_t)Range_Len(r)) { return Terminal; }
   
   if (r->step > 0) {
     for (int64_t i = 0; i < r->step; i++) {
@@ -594,8 +602,11 @@ static var Slice_Iter_Last(var self) {
   struct Slice* s = self;
   struct Range* r = s->range;
   int64_t n = Range_Len(r);
+  struct Int* k = r->value;
   
   if (n is 0) { return Terminal; }
+  
+  k->val = n-1;
   
   if (r->step > 0) {
     int64_t last = r->start + r->step * (n-1);
@@ -621,6 +632,10 @@ static var Slice_Iter_Last(var self) {
 static var Slice_Iter_Prev(var self, var curr) {
   struct Slice* s = self;
   struct Range* r = s->range;
+  struct Int* k = r->value;
+  
+  if (k->val <= 0) { return Terminal; }
+  k->val--;
   
   if (r->step > 0) {
     for (int64_t i = 0; i < r->step; i++) {
@@ -644,7 +659,14 @@ static size_t Slice_Len(var self) {
 
 static var Slice_Get(var self, var key) {
   struct Slice* s = self;
-  return get(s->iter, Range_Get(s->range, key));
+  struct Range* r = s->range;
+  struct Int* k = r->value;
+  
+  /* Range_Get hands its result out in the cursor: keep the position */
+  int64_t pos = k->val;
+  var item = get(s->iter, Range_Get(r, key));
+  k->val = pos;
+  return item;
 }
 
 static bool Slice_Mem(var self, var key) {
